@@ -183,8 +183,22 @@ def layout_text(hdrs, oprows, rng):
     return '\n'.join(lines) + '\n'
 
 
+_SCRATCH = {}
+
+
 def load_via_file(kp, text):
-    """kp.load on a real temporary file holding exactly the bytes of the text"""
+    """kp.load on a real file holding exactly the bytes of the text.  Every other call re-uses ONE path per worker
+    process (the file is saved again with the new text, as an editor does), the others use a fresh path."""
+    _SCRATCH['n'] = _SCRATCH.get('n', 0) + 1
+    if _SCRATCH['n'] % 2 == 0:
+        if 'dir' not in _SCRATCH or not os.path.isdir(_SCRATCH['dir']):
+            _SCRATCH['dir'] = tempfile.mkdtemp(prefix='kvc02s_')
+            import atexit
+            atexit.register(shutil.rmtree, _SCRATCH['dir'], True)
+        path = os.path.join(_SCRATCH['dir'], 'score.krn')
+        with open(path, 'w', encoding='utf-8', newline='') as f:
+            f.write(text)
+        return kp.load(path)
     tmp = tempfile.mkdtemp(prefix='kvc02_')
     try:
         path = os.path.join(tmp, 'in.krn')
@@ -394,6 +408,9 @@ def run(chk):
                 'spaces, non-ASCII, separators), blank lines (leading, interior, trailing), lines made only of tabs, rows with surplus cells / after the last terminator, and generated '
                 'documents with literal cells injected; non-trivial = distinct text')
     results = engine.pmap(worker, jobs)
+    import glob as _glob
+    for _d in _glob.glob(os.path.join(tempfile.gettempdir(), 'kvc02s_*')):
+        shutil.rmtree(_d, ignore_errors=True)       # the scratch paths of the worker processes
     engine.settle(chk, results, model)
     chk.disagreements_checked = len(chk.broken)
 
